@@ -227,6 +227,13 @@ def main():
         rng.shuffle(corp)
         corp.sort(key=lambda p: 0 if p["name"].startswith("reg-") else 1)
         progs = corp[:30] + gen
+    # valid but silly constant subexpressions: what gcc's -Wall says about them is part of "compiles without warnings"
+    decl = "out int x;\nout int{unsigned} u;\nout bool b;\n"
+    for k, stmt in enumerate(['x = [1 << 40];', 'x = [x >> 64];', 'x = [2147483647 + 1];', 'x = [2147483647 * 2];', 'if b == 2 { "q"; }',
+                              'if b > 1 { "q"; }', 'if x == x { "q"; }', 'x = [x / 0];', 'x = [5 % 0];', 'x = [1 << (0 - 1)];', 'x = [1 / (2 - 2)];',
+                              'if u < 0 { "q"; }', 'if 3 { "q"; }', 'x = [(x == 1) + (x == 2)];', 'if x << 1 { "q"; }', 'x = [0 - 2147483648];',
+                              'u = [0 - 1];', 'x = [x * 0];', 'if x / 1 == x { "q"; }', 'x = [1 - -1];']):
+        progs.append({"name": f"const-corner-{k}", "src": decl + 'parser { "a"; ' + stmt + ' "z"; }\n', "args": [], "feats": {}, "origin": "const-corner"})
     wd = common.scratch_dir("c11")
     try:
         with mp.Pool(min(15, os.cpu_count() or 4)) as pool:
@@ -249,6 +256,12 @@ def main():
             distinct.add(population.src_hash(prog["src"]))
         for v in r["viol"]:
             sig = re.sub(r"\d+", "N", v["detail"] if "detail" in v else str(v.get("labels")))[:80]
+            m = re.search(r"\[-Werror=([a-z-]+)\]", v.get("detail", ""))
+            if prog.get("origin") == "const-corner" and v["kind"] == "compiler-rejects" and m:
+                sig = None
+                ck.report(f"gcc-warning-on-constant-expression/{m.group(1)}", f"{r['name']} [{v['cfg']}]: accepted, and the generated C does not compile under -Wall -Werror: {v['detail']}",
+                          {"program": prog["src"], **v})
+                continue
             ck.report(f"{v['kind']}/{sig}", f"{r['name']} [{v['cfg']}]: {v['kind']}: {v.get('detail', v.get('labels'))}",
                       {"program": prog["src"], **v})
         for v in r["corr"]:
